@@ -66,7 +66,7 @@ void thread_entry_2() { do_locker<2>(); }
 #endif
 #endif
 NOINL void world_init() { new (&M.v) mutex(RETRIES); }
-NOINL void world_final(uint32_t all_done)
+NOINL void world_final(uint32_t all_done, uint32_t stuck)
 {
     if (all_done) {
         CHECK(M.v.owner.load() == nullptr, "quiescence: the mutex is free");
